@@ -939,11 +939,16 @@ class Buffer(Iterable):
             return
         self._stopped.set()
         tasks = self._tasks
-        while not tasks.empty():
-            _ = tasks.get()
-        # `tasks` is now empty. The thread needs to put at most one
-        # more element into the queue, which is safe.
-        self._worker.join()
+        while True:
+            while not tasks.empty():
+                _ = tasks.get()
+            # `tasks` is empty now, but the worker may still have up to three more
+            # things to put (the element in its hand, then the end marker or the two
+            # items announcing an exception) and it blocks when there is no room:
+            # keep making room until it has left.
+            self._worker.join(0.01)
+            if not self._worker.is_alive():
+                break
         self._stopped = None
 
     def __iter__(self):
